@@ -11,7 +11,7 @@ import subprocess
 from harness import common, gpgutil, keydata
 from harness.common import cps, uncps
 
-BRIDGE = ('Gemato.Bridge.Pgp', 'Gemato.Bridge.SrcPgp', 'Gemato.Bridge.SrcText')
+BRIDGE = ('Gemato.Bridge.Pgp', 'Gemato.Bridge.SrcPgp', 'Gemato.Bridge.SrcText', 'Gemato.Bridge.SrcCli')
 PROPS = ['Gemato.Props.C05']
 
 FPR = gpgutil.KEY_FPR
